@@ -797,6 +797,21 @@ func (c *EvalCtx) call(e ECall) EV {
 		}
 		// never called on this path: an arbitrary value
 		return EV{T: fr.R.Sc.Declare("never."+sanitize(key), fr.R.TM.SortOf(ty)), Ty: ty}
+	case "lastResult":
+		name := identName(e.Args[0])
+		k := 0
+		if len(e.Args) > 1 {
+			k = litInt(e.Args[1])
+		}
+		key := fmt.Sprintf("last.%s.%d", name, k)
+		ty := fr.R.trackTypes[key]
+		if t, ok := c.st.ghost[key]; ok {
+			return EV{T: t, Ty: ty}
+		}
+		if ty == nil {
+			c.fail("lastResult(%s,%d): no such tracked call", name, k)
+		}
+		return EV{T: fr.R.Sc.Declare("never."+sanitize(key), fr.R.TM.SortOf(ty)), Ty: ty}
 	case "closed":
 		x := c.eval(e.Args[0])
 		cc := fr.R.Heap.Get(fr.st, chanClosedComp, ArraySort(SInt, SBool))
